@@ -477,7 +477,7 @@ func (g *vGen) next(step int, st map[string]interface{}) *vEntry {
 				if g.realtime {
 					// entries are stamped by the real clock: whether a hold of 0 or 5 s has run out when the
 					// next NICK arrives is a matter of nanoseconds the model (whole seconds) cannot follow
-					durs = []string{"100", "3600", "x"}
+					durs = []string{"100", "900", "x"}
 				}
 				e.Data = fmt.Sprintf(":%s SVSHOLD %s %s :%s", pfx, pick(r, vNicks), pick(r, durs), "held")
 			}
